@@ -52,21 +52,20 @@ func VerifH_C07_Acks() {
 		}
 		d := refDecode(p)
 		seq++
-		// attribute the packet to its request
-		for _, r := range reqs {
+		// attribute the packet to its request: every request uses its own topic / first filter ('0'+index);
+		// a PUBREL carries only the identifier of its PUBLISH
+		for i, r := range reqs {
+			mark := byte('0' + i)
 			match := false
-			switch r.kind {
-			case c11Pub1:
-				match = d.typ == 3 && (d.flags>>1)&3 == 1
-			case c11Pub2:
-				match = d.typ == 3 && (d.flags>>1)&3 == 2 || d.typ == 6
-			case c11Sub:
-				match = d.typ == 8 && len(d.filters) == r.nfilters
-			case c11Unsub:
-				match = d.typ == 10
+			switch d.typ {
+			case 3:
+				match = (r.kind == c11Pub1 || r.kind == c11Pub2) && len(d.topic) == 2 && d.topic[1] == mark
+			case 6:
+				match = r.kind == c11Pub2 && r.haveID && r.id == d.id
+			case 8, 10:
+				match = (r.kind == c11Sub || r.kind == c11Unsub) && len(d.filters) > 0 && len(d.filters[0]) == 2 && d.filters[0][1] == mark
 			}
-			if match && (!r.haveID || r.id == d.id) && (r.haveID || len(r.wseq) == 0) {
-				// two requests of the same kind: the first unclaimed one takes the packet
+			if match {
 				r.id, r.haveID = d.id, true
 				r.wseq = append(r.wseq, seq)
 				break
@@ -106,20 +105,21 @@ func VerifH_C07_Acks() {
 	}
 	for i := range reqs {
 		r := reqs[i]
+		mark := string([]byte{byte('0' + i)})
 		go func() {
 			switch r.kind {
 			case c11Pub1:
-				r.err = cli.Publish(ctx, &Message{Topic: "t", QoS: QoS1, Payload: []byte{1}})
+				r.err = cli.Publish(ctx, &Message{Topic: "t" + mark, QoS: QoS1, Payload: []byte{1}})
 			case c11Pub2:
-				r.err = cli.Publish(ctx, &Message{Topic: "t", QoS: QoS2, Payload: []byte{2}})
+				r.err = cli.Publish(ctx, &Message{Topic: "t" + mark, QoS: QoS2, Payload: []byte{2}})
 			case c11Sub:
-				subs := []Subscription{{Topic: "a", QoS: QoS2}}
+				subs := []Subscription{{Topic: "a" + mark, QoS: QoS2}}
 				if r.nfilters == 2 {
 					subs = append(subs, Subscription{Topic: "b", QoS: QoS1})
 				}
 				r.subs, r.err = cli.Subscribe(ctx, subs...)
 			case c11Unsub:
-				r.err = cli.Unsubscribe(ctx, "a")
+				r.err = cli.Unsubscribe(ctx, "a"+mark)
 			}
 			r.returned = true
 			verifEvent("returned(" + itoa(r.kind) + ")")
